@@ -127,13 +127,11 @@ macro_rules! with_engine {
 /// must return (Ok or Err), never panic.
 fn one_step(op: u8) {
     // PUSHW[7] carries 16 operand bytes
-    let tail: [u8; 16] = kani::any();
-    let mut code = [op; 17];
-    let mut i = 0;
-    while i < 16 {
-        code[i + 1] = tail[i];
-        i += 1;
-    }
+    let t: [u8; 16] = kani::any();
+    // (written out: a copy loop would need its own unwinding bound)
+    let code = [
+        op, t[0], t[1], t[2], t[3], t[4], t[5], t[6], t[7], t[8], t[9], t[10], t[11], t[12], t[13], t[14], t[15],
+    ];
     with_engine!(&code, Program::Glyph, |engine| {
         if let Some(Ok(ins)) = engine.decode() {
             let r = engine.dispatch(&ins);
